@@ -17,6 +17,15 @@ CHECKS = {
             "conversions, canonical decoding, hashing/equality consistency, roots of unity.",
             "TLC's evaluator; the 8/16-bit instantiations share the generic source of FP32/FP64/FP128 but are different monomorphizations; "
             "deployed primes are covered by lattice + sampling, not exhaustively."),
+    "C05": ("DESIGN.md#c05--flp-provequerydecide",
+            "TLA+ spec of the FLP and all shipped validity circuits (GF.tla, Flp.tla) from the draft's definitions; TLC checks completeness/linearity/lengths "
+            "on every explored state; every TLC behaviour replayed through the real Flp/Type API on tiny-field instantiations (hook H1)",
+            "Model checking of completeness, share-linearity, exact lengths and root-of-unity refusal for all shipped circuits (+ a user-defined degree-3 circuit) "
+            "over GF(17)/GF(193)/GF(12289)/GF(40961); every behaviour (>50k in quick) replayed on the same generic Rust code instantiated over those fields with "
+            "element-by-element comparison of proofs, verifier shares, circuit outputs, truncations, encodings and decisions; exhaustive randomness for "
+            "Count/Sum(1)/HigherDegree over GF(17) in the thorough tier. Soundness counting is checked on the model under C02.",
+            "Tiny-field instantiations share the generic source with Field64/Field128 but are different monomorphizations; randomness from pattern families "
+            "outside the exhaustive sub-space; HigherDegree is re-declared in the harness from public API because the in-tree one is pub(crate) and Field64-only."),
 }
 
 NOT_YET = {}
